@@ -219,7 +219,7 @@ def canonicalise(dotted: str, tree: ast.Module, reference: Optional[dict] = None
         ref = refmod.get(q)
         if ref is None:
             continue
-        nw = while_to_for(fn) + enumerate_to_range(fn)
+        nw = while_to_for(fn) + enumerate_to_range(fn) + split_walrus_and(fn)
         nw += sink_final_return(fn, refmod.get("<returns>", {}).get(q, 0))
         if refmod.get("<lambdas>", {}).get(q):
             nw += def_to_lambda(fn, set(refmod.get("<nested>", {}).get(q, [])))
@@ -1706,9 +1706,45 @@ def inline_module_constants(tree: ast.Module, ref_globals: Set[str], imports: Se
         if isinstance(st, (ast.Assign, ast.AnnAssign)) and (st.targets[0].id if isinstance(st, ast.Assign) and isinstance(st.targets[0], ast.Name) else
                                                             getattr(getattr(st, "target", None), "id", None)) in consts:
             continue
-        tree.body[i] = sub.visit(st)
+        tree.body[i] = _FoldLiteralSeq().visit(sub.visit(st))
     ast.fix_missing_locations(tree)
     return order
+
+
+class _FoldLiteralSeq(ast.NodeTransformer):
+    """Constant folding made necessary by substituted constants: `len((a, b))` -> 2, `list((a, b))` -> `[a, b]`, `tuple([a, b])` -> `(a, b)`
+    (the builtins applied to a literal display whose elements are free of effects; a fresh list is built either way)."""
+
+    def visit_Call(self, node):
+        self.generic_visit(node)
+        if isinstance(node.func, ast.Name) and node.func.id in ("len", "list", "tuple") and len(node.args) == 1 and not node.keywords \
+                and isinstance(node.args[0], (ast.Tuple, ast.List)) and not any(isinstance(e, ast.Starred) for e in node.args[0].elts) \
+                and all(_is_pure(e) for e in node.args[0].elts):
+            elts = node.args[0].elts
+            if node.func.id == "len":
+                return ast.copy_location(ast.Constant(value=len(elts)), node)
+            if node.func.id == "list":
+                return ast.copy_location(ast.List(elts=elts, ctx=ast.Load()), node)
+            return ast.copy_location(ast.Tuple(elts=elts, ctx=ast.Load()), node)
+        return node
+
+
+def split_walrus_and(fn: ast.FunctionDef) -> int:
+    """`if A and B: S` (no else) with an assignment expression in B -> `if A: if B: S` (short-circuit evaluation is exactly this nesting; the
+    reference spells its only walrus tests that way)."""
+    n = 0
+    for st in ast.walk(fn):
+        if isinstance(st, ast.If) and not st.orelse and isinstance(st.test, ast.BoolOp) and isinstance(st.test.op, ast.And) \
+                and any(isinstance(x, ast.NamedExpr) for v in st.test.values[1:] for x in ast.walk(v)):
+            first, rest = st.test.values[0], st.test.values[1:]
+            inner_test = rest[0] if len(rest) == 1 else ast.BoolOp(op=ast.And(), values=rest)
+            inner = ast.copy_location(ast.If(test=inner_test, body=st.body, orelse=[]), st)
+            st.test = first
+            st.body = [inner]
+            n += 1
+    if n:
+        ast.fix_missing_locations(fn)
+    return n
 
 
 def enumerate_to_range(fn: ast.FunctionDef) -> int:
